@@ -63,26 +63,62 @@ func (e *ColEnum) parse(t ColumnType) error {
 	clear(e.strToRaw)
 
 	elements := t.Elem().String()
-	for _, elem := range strings.Split(elements, ",") {
-		def := strings.TrimSpace(elem)
+	// Names are quoted and can contain commas and equals signs, so splitting
+	// outside of quotes only.
+	defs := splitTypeParams(elements)
+	if len(defs) == 0 {
+		return errors.Errorf("bad enum definition %q", elements)
+	}
+	for _, def := range defs {
 		// 'hello' = 1
-		left, right, hascomma := strings.Cut(def, "=")
-		if !hascomma {
+		left, right, ok := cutEnumDef(def)
+		if !ok {
 			return errors.Errorf("bad enum definition %q", def)
 		}
-		left = strings.TrimSpace(left)   // 'hello'
-		right = strings.TrimSpace(right) // 1
 		idx, err := strconv.Atoi(right)
 		if err != nil {
 			return errors.Errorf("bad right side of definition %q", right)
 		}
-		left = strings.TrimFunc(left, func(c rune) bool {
-			return c == '\''
-		})
 		e.strToRaw[left] = idx
 		e.rawToStr[idx] = left
 	}
 	return nil
+}
+
+// cutEnumDef cuts enum element definition like "'hello' = 1" to name (without
+// quotes, escapes are kept as is) and value.
+func cutEnumDef(def string) (name, value string, ok bool) {
+	def = strings.TrimSpace(def)
+	if !strings.HasPrefix(def, "'") {
+		// Not quoted, e.g. for hand-written types.
+		left, right, ok := strings.Cut(def, "=")
+		if !ok {
+			return "", "", false
+		}
+		left = strings.TrimFunc(strings.TrimSpace(left), func(c rune) bool {
+			return c == '\''
+		})
+		return left, strings.TrimSpace(right), true
+	}
+	end := -1
+	for i := 1; i < len(def); i++ {
+		if def[i] == '\\' {
+			i++ // skip escaped character
+			continue
+		}
+		if def[i] == '\'' {
+			end = i
+			break
+		}
+	}
+	if end < 0 {
+		return "", "", false
+	}
+	rest := strings.TrimSpace(def[end+1:])
+	if !strings.HasPrefix(rest, "=") {
+		return "", "", false
+	}
+	return def[1:end], strings.TrimSpace(rest[1:]), true
 }
 
 func (e *ColEnum) Infer(t ColumnType) error {
